@@ -34,6 +34,8 @@
 EXTENDS Integers, Sequences, FiniteSets, TLC, Json
 
 CONSTANTS Alphabet,    \* the byte values codes are built from (exhaustive mode)
+          Heads,       \* the codes the exhaustive enumeration starts from ({<<>>}: every string over Alphabet;
+                       \* {<<b>> : b \in 0..255}: every byte value followed by every string over Alphabet)
           MaxLen,      \* longest code
           Weighted     \* simulation mode: sequence of sets of bytes, one entry picked uniformly, then a byte of it
 
@@ -117,7 +119,7 @@ Case(c) == [code   |-> c,
             lenI   |-> Len(ProgJumpi(c)), validI |-> Sorted(ProgJumpi(c))]
 Emit(c) == PrintT("CASE " \o ToJson(Case(c)))
 
-Init == code = <<>> /\ Emit(<<>>)
+Init == code \in Heads /\ Emit(code)
 
 \* exhaustive mode: every extension by one byte of the alphabet (each code has one predecessor,
 \* so every code is printed exactly once)
